@@ -35,6 +35,8 @@ long vf_alloc_fail_at;
 long vf_alloc_fail_at2;
 int  vf_alloc_failed;		/* number of injected failures so far */
 static unsigned long serial;
+static unsigned long g_mark;		/* serial at the last vf_alloc_mark */
+static long g_live_after_mark;	/* live blocks allocated since then */
 
 static size_t hashp(void *p)
 {
@@ -45,7 +47,10 @@ static size_t hashp(void *p)
 
 static void grow(void)
 {
-    size_t nsize = table_size ? table_size * 2 : 4096;
+    /* rehash at the same size when the table is mostly tombstones */
+    size_t nlive = (size_t)(live[0] + live[1]);
+    size_t nsize = !table_size ? 4096 :
+	(nlive * 4 > table_size ? table_size * 2 : table_size);
     slot_t *old = table;
     size_t osize = table_size;
 
@@ -85,6 +90,7 @@ static void remember(void *p, const char *file, int line, int origin)
     table[h].origin = origin;
     table[h].serial = ++serial;
     ++live[origin];
+    ++g_live_after_mark;
 }
 
 /* returns origin or -1 if unknown */
@@ -98,6 +104,8 @@ static int forget(void *p)
 	    int o = table[h].origin;
 	    table[h].ptr = TOMB;
 	    --live[o];
+	    if (table[h].serial > g_mark)
+		--g_live_after_mark;
 	    return o;
 	}
 	h = (h + 1) & (table_size - 1);
@@ -234,6 +242,8 @@ long vf_live_total(void)
 
 unsigned long vf_alloc_mark(void)
 {
+    g_mark = serial;
+    g_live_after_mark = 0;
     return serial;
 }
 
@@ -248,6 +258,8 @@ int vf_leak_report(unsigned long mark, char *buf, size_t n)
 
     if (n > 0)
 	buf[0] = '\0';
+    if (mark == g_mark && g_live_after_mark == 0)
+	return 0;		/* fast path: nothing allocated since is live */
     for (size_t i = 0; i < table_size; ++i) {
 	if (table[i].ptr == NULL || table[i].ptr == TOMB)
 	    continue;
@@ -278,6 +290,8 @@ void vf_leak_discard(unsigned long mark)
 	if (table[i].serial <= mark)
 	    continue;
 	--live[table[i].origin];
+	if (table[i].serial > g_mark)
+	    --g_live_after_mark;
 	/* intentionally not freed: pointer may still be referenced */
 	table[i].ptr = TOMB;
     }
